@@ -427,3 +427,56 @@ func init() {
 		fmt.Println("sites:", len(pw.sites))
 	}
 }
+
+// ---- methods that formatting calls implicitly leave the value unchanged ----
+//
+// observerRule: fmt (and through it every logging call) invokes String, Error, GoString and Format on the
+// values it prints, and the encoders of encoding/json and encoding/text invoke MarshalJSON / MarshalText.
+// A log line between a decode and an encode — in the application or in the codec itself — therefore runs
+// these methods on the message. For every such method of the packages in scope:
+//   (a) nothing reachable from the receiver is handed to a function outside the module that may change
+//       it (a buffer drained by Next, a list reordered by sort) — the walk of noConsumeRule;
+//   (b) the module's own code reached from the method does not store through, append onto, or copy into
+//       memory derived from the receiver (alias analysis with the receiver as the source).
+// A violation means printing the value changes what it encodes to afterwards.
+var observerNames = map[string]bool{"String": true, "Error": true, "GoString": true, "Format": true, "MarshalJSON": true, "MarshalText": true}
+
+func observerRule(w *World, r *Report, rule string, pkgs ...string) {
+	in := map[string]bool{}
+	for _, p := range pkgs {
+		in[p] = true
+	}
+	isObs := func(fi *FuncInfo) bool {
+		return fi.Recv != nil && observerNames[fi.Decl.Name.Name] && in[fi.Pkg.Types.Name()] && !strings.HasSuffix(w.Fset.Position(fi.Decl.Pos()).Filename, "_test.go")
+	}
+	n := 0
+	a := NewAlias(w)
+	for _, key := range w.sortedFuncKeys() {
+		fi := w.Funcs[key]
+		if fi.Decl.Body == nil || !isObs(fi) {
+			continue
+		}
+		n++
+		sf := w.SSAFunc(fi)
+		if sf == nil {
+			r.Fail(VUndecided, rule, fi.Key, "stores", w.Pos(fi.Decl.Pos()), "no SSA form for the method")
+			continue
+		}
+		sum := a.AnalyzeParam(sf, 0)
+		var bad []string
+		evs := append([]*AliasEvent{}, sum.events...)
+		sortEvents(evs, w)
+		for _, e := range evs {
+			if e.Kind == "mutate" {
+				bad = append(bad, e.What+" at "+w.Pos(e.Pos))
+			}
+		}
+		if len(bad) > 0 {
+			r.Fail(VViolation, rule, fi.Key, "stores", w.Pos(fi.Decl.Pos()), "formatting calls this method implicitly, and it changes the value it is called on: "+strings.Join(bad, "; ")+" — after a log line the value encodes differently")
+		} else {
+			r.OK(rule, fi.Key, "stores", w.Pos(fi.Decl.Pos()), "no store through, append onto or copy into memory derived from the receiver, in the method or the module code it calls", true)
+		}
+	}
+	noConsumeRule(w, r, rule, isObs)
+	r.OK(rule, "inventory", strings.Join(pkgs, "+"), "-", fmt.Sprintf("%d methods that formatting calls implicitly (String, Error, GoString, Format, MarshalJSON, MarshalText) in scope; each checked", n), true)
+}
